@@ -282,6 +282,11 @@ class _ScopeContext:
     def stack_ClassDef(self, ast: AST, stack: list[AST]) -> bool:
         """See `walk_funcdef()`."""
 
+        arglikes = ast.bases + ast.keywords
+
+        if ast.bases and ast.keywords:  # Starred bases can follow keywords, keep source order
+            arglikes.sort(key=lambda a: (a.lineno, a.col_offset))
+
         if self.back:
             stack.extend(ast.decorator_list)
 
@@ -291,12 +296,10 @@ class _ScopeContext:
                 if a := getattr(tp, 'default_value', None):
                     stack.append(a)
 
-            stack.extend(ast.bases)
-            stack.extend(ast.keywords)
+            stack.extend(arglikes)
 
         else:  # forward
-            stack.extend(ast.keywords[::-1])
-            stack.extend(ast.bases[::-1])
+            stack.extend(arglikes[::-1])
 
             for tp in getattr(ast, 'type_params', ())[::-1]:  # type parameters
                 if a := getattr(tp, 'default_value', None):
